@@ -1,7 +1,7 @@
 import PPProofs.Lemmas.ParseTermRec
 import PPProofs.Props.C06Term
 /-!
-# C06 — termination on RECURSIVE grammars whose every cycle passes through a consuming step (partial: no SkipTo)
+# C06 — termination on RECURSIVE grammars whose every cycle passes through a consuming step
 
 Measure: (remaining input, rank), lexicographically.  `leftRankOk g r k R` is an executable test on the node table:
 every reference of a node that can be entered WITHOUT prior consumption — the first operand of an `And` and the following
@@ -11,9 +11,11 @@ may refer anywhere in the table (this is where `Forward` cycles are allowed: `ex
 `recursive_terminates_partial`: under that test and `Advancing g s`, `parse g s fuel id loc … ≠ .hang` for every
 `fuel > (len s + 1 - loc) · (R + 1) + r id`.
 
-PARTIAL: tables containing `SkipTo` are rejected by the test (its scanning loop is not ported to the location-restricted
-lemma family, Lemmas/ParseTermRec.lean), and a `StringStart` must carry no ignorables (it pre-parses from location 0).
-Left recursion (a cycle without consumption) is rightly outside: there the real code recurses for ever.
+PARTIAL (hence the name): a `StringStart` must carry no ignorables (it pre-parses from location 0, i.e. BEFORE the
+current location, where the lexicographic induction has nothing to offer); cycles that consume only through something
+other than an `And` operand recognised by `consumes` (e.g. a consuming `Opt`-free wrapper inside a `MatchFirst` is fine,
+but consumption established only semantically is not) are not accepted by the test.  Left recursion (a cycle without
+consumption) is rightly outside: there the real code recurses for ever.
 -/
 namespace PP.Parse
 
@@ -28,7 +30,7 @@ def leftChildren (g : Grammar) (k : Nat) (nd : Node) : List Nat :=
    | .and (e0 :: rest) => e0 :: (if consumes g k e0 then [] else andLeft g k rest)
    | kd => kd.children) ++ nd.ignore
 
-/-- **the test**: closed table, left references decrease the rank, ranks `≤ R`, no SkipTo, StringStart without ignorables -/
+/-- **the test**: closed table, left references decrease the rank, ranks `≤ R`, StringStart without ignorables -/
 def leftRankOk (g : Grammar) (r : Nat → Nat) (k R : Nat) : Bool :=
   (List.range g.length).all fun i =>
     match g[i]? with
@@ -39,13 +41,12 @@ def leftRankOk (g : Grammar) (r : Nat → Nat) (k R : Nat) : Bool :=
       decide (r i ≤ R) &&
       (match nd.kind with
        | .stringStart => nd.ignore.isEmpty
-       | .skipTo _ _ _ _ => false
        | _ => true)
 
 theorem leftRankOk_spec {g : Grammar} {r : Nat → Nat} {k R : Nat} (h : leftRankOk g r k R = true) {i : Nat} {nd : Node}
     (hg : g[i]? = some nd) :
     (∀ c ∈ nd.children, c < g.length) ∧ (∀ c ∈ leftChildren g k nd, r c < r i) ∧ r i ≤ R ∧
-    (nd.kind = .stringStart → nd.ignore = []) ∧ (∀ x a b c, nd.kind ≠ .skipTo x a b c) := by
+    (nd.kind = .stringStart → nd.ignore = []) := by
   unfold leftRankOk at h
   rw [List.all_eq_true] at h
   have hi : i < g.length := (List.getElem?_eq_some_iff.mp hg).1
@@ -53,9 +54,8 @@ theorem leftRankOk_spec {g : Grammar} {r : Nat → Nat} {k R : Nat} (h : leftRan
   rw [hg] at this
   simp only [Bool.and_eq_true, List.all_eq_true, decide_eq_true_eq] at this
   obtain ⟨⟨⟨h1, h2⟩, h3⟩, h4⟩ := this
-  refine ⟨h1, h2, h3, ?_, ?_⟩
-  · intro hk; rw [hk] at h4; simpa using h4
-  · intro x a b c hk; rw [hk] at h4; simp at h4
+  refine ⟨h1, h2, h3, ?_⟩
+  intro hk; rw [hk] at h4; simpa using h4
 
 theorem leftChildren_not_and {g : Grammar} {k : Nat} {nd : Node} (h : ∀ es, nd.kind ≠ .and es) :
     leftChildren g k nd = nd.kind.children ++ nd.ignore := by
@@ -64,7 +64,7 @@ theorem leftChildren_not_and {g : Grammar} {k : Nat} {nd : Node} (h : ∀ es, nd
   · rename_i e0 rest hk; exact absurd hk (h _)
   · rfl
 
-/-- **C06 termination, recursive grammars (partial: no SkipTo).** -/
+/-- **C06 termination, recursive grammars** (all kinds of the model; partial only in what the test accepts, see above). -/
 theorem recursive_terminates_partial (g : Grammar) (r : Nat → Nat) (k R : Nat) (hr : leftRankOk g r k R = true)
     (s : List Char) (ha : Advancing g s) :
     ∀ fuel id loc, id < g.length → (s.length + 1 - loc) * (R + 1) + r id < fuel →
@@ -75,7 +75,7 @@ theorem recursive_terminates_partial (g : Grammar) (r : Nat → Nat) (k R : Nat)
   | succ f ih =>
     intro id loc hid hm a c
     have hg : g[id]? = some g[id] := List.getElem?_eq_getElem hid
-    obtain ⟨hcl, hleft, hR, hss, hns⟩ := leftRankOk_spec hr hg
+    obtain ⟨hcl, hleft, hR, hss⟩ := leftRankOk_spec hr hg
     have hA := ha f id g[id] hg
     -- smaller rank, same or later location
     have key1 : ∀ x, x < g.length → r x < r id → NHge (parse g s f) x loc := by
@@ -128,7 +128,7 @@ theorem recursive_terminates_partial (g : Grammar) (r : Nat → Nat) (k R : Nat)
             exact ihr (fun y hy => hlen y (List.mem_cons_of_mem _ hy))
               (fun y hy => hrk y (by simp [hy]))
     show parseStep g s (parse g s f) id loc a c ≠ .hang
-    refine parseStep_nohang_ge g s (parse_adv g s f) (parse_bndAll g s f) hg loc ⟨?_, ?_, ?_, hA.2, hss, hns⟩ a c
+    refine parseStep_nohang_ge g s (parse_adv g s f) (parse_bndAll g s f) hg loc ⟨?_, ?_, ?_, hA.2, hss⟩ a c
     · intro e he
       have hc : e ∈ (g[id]).children := by simp [Node.children, he]
       have hl : e ∈ leftChildren g k g[id] := by unfold leftChildren; simp [he]
